@@ -71,72 +71,103 @@ Example C01_left_assoc_example :
   = Some (Infix (opi "MINUS") (Infix (opi "MINUS") (Int 1) (Int 2)) (Int 3), []).
 Proof. vm_compute. reflexivity. Qed.
 
-(* ---- back end, stage A: the compiler model that is compared with the real compiler on every run emits, for
-   every scalar expression (integer / boolean / nil literals, prefix - and !, arithmetic and comparison
-   operators, short-circuit && and ||, the conditional; any nesting), exactly the code of the pure function
-   [cexp] - jump distances included -, appends exactly its constants and changes nothing else of its state. ---- *)
+(* ---- back end: compile correctness on the models that are compared with the implementation on every run ----
+
+   Fragment (model/ScalarFrag.v, model/VarProg.v): straight-line programs over top-level variables - any number of
+   declarations `x := e`, assignments `x = e` and expression statements, whose expressions are built from integer /
+   boolean / nil literals, variables declared earlier, prefix - and !, the arithmetic and comparison operators,
+   short-circuit && and ||, and the conditional, at any nesting.  For the fragment, the emitted code ([cexp], [pcode])
+   and the source-level result ([sev], [run_stmts]) are pure functions, and:
+
+   (1) the compiler model emits exactly that code (jump distances, global slots and constants included),
+   (2) the reference semantics Sem computes exactly that result,
+   (3) the VM model running that code computes exactly that result,
+   hence (4) compile_program followed by VM.run agrees with Sem.run on every program of the fragment. *)
 From Coq Require Import NArith ZArith.
-Require Import RV.model.Syntax RV.model.Compiler RV.model.ScalarFrag RV.proofs.BackendProofs.
+Require Import RV.model.Syntax RV.model.Compiler RV.model.ScalarFrag RV.model.VarProg RV.proofs.BackendProofs.
 Local Open Scope nat_scope.
-Theorem C01_back_compile_scalar : forall e f st w r,
-  st_stack st = w :: r -> height e <= f ->
-  compile f (embed e) st =
+
+(* (1) expressions: [tabs_ok names tabs n] says that the root symbol table knows the first n variables *)
+Theorem C01_back_compile_scalar : forall names n e f st w r,
+  st_stack st = w :: r -> w_tab w = 0 -> tabs_ok names (st_tabs st) n -> wf n e = true -> height e <= f ->
+  compile f (embed names e) st =
   inr (I (fst (cexp (List.length (w_consts w)) e)), add_consts st (snd (cexp (List.length (w_consts w)) e))).
 Proof. exact compile_scalar. Qed.
 
-(* Non-vacuity: 1 + 2 * 3 < 10 && !nil on the initial compiler state *)
+(* Non-vacuity: 1 + 2 * 3 < 10 && !nil *)
 Example C01_back_compile_example :
   fst (cexp 0 (SLand (SBin CLt (SBin BAdd (SInt 1) (SBin BMul (SInt 2) (SInt 3))) (SInt 10)) (SNot SNil))) =
   [opLoadConst; 0; opLoadConst; 1; opLoadConst; 2; opBinaryOp; bMultiply; opBinaryOp; bAdd; opLoadConst; 3;
    opCompareOp; cLessThan; opCopy; 0; opPopJumpForwardIfFalse; 7; opNil; opUnaryNot; opBinaryOp; bAnd; opNop]%N.
 Proof. vm_compute. reflexivity. Qed.
 
-(* ... and on the same fragment the reference semantics that judges the implementation on every run (Sem.eval)
-   computes exactly the pure function [sev] - value or error class -, for every environment and state, which
-   it leaves untouched. *)
+(* (1) whole programs *)
+Require Import RV.proofs.VarCompileProofs.
+Theorem C01_back_compile_program : forall names, NoDup names -> forall l f,
+  l <> nil -> ndecls l <= List.length names -> wf_stmts 0 l = true -> max_height l <= f ->
+  compile_program (S f) nil (embed_stmts names 0 l) =
+  inr (Code main_id main_id false 0 (fst (pcode 0 0 l)) (snd (pcode 0 0 l)) nil nil nil, (root_tb names (ndecls l) :: nil)%list).
+Proof. exact compile_var_program. Qed.
+
+(* (2) expressions: [env_ok] says that the environment binds the variables and the store holds their values rho *)
 Require Import RV.model.Sem RV.proofs.SemScalarProofs.
-Theorem C01_back_sem_scalar : forall x f e s, (ScalarFrag.height x <= f)%nat ->
-  Sem.eval f e s (ScalarFrag.embed x) = (lift (ScalarFrag.sev x), e, s).
+Theorem C01_back_sem_scalar : forall names rho x f e s,
+  (ScalarFrag.height x <= f)%nat -> ScalarFrag.wf (List.length rho) x = true -> env_ok names rho e s ->
+  Sem.eval f e s (ScalarFrag.embed names x) = (lift (ScalarFrag.sev rho x), e, s).
 Proof. exact sem_scalar. Qed.
 
-(* ... and the VM model that is compared with the real VM on every run, running the code of [cexp] inside ANY code
-   object, at ANY position, under ANY stack with room for it, pushes exactly that value - or stops with exactly
-   that error class - and leaves the machine state untouched; k is the number of instructions executed.
-   Together (C01_back_compile_scalar, C01_back_sem_scalar, C01_back_vm_scalar): on the scalar fragment,
-   compiling and executing a program is the same as evaluating its source, for every expression of any size. *)
+(* (2) whole programs *)
+Require Import RV.proofs.VarSemProofs.
+Theorem C01_back_sem_program : forall names, NoDup names -> Forall (fun nm => nm <> nil) names -> forall l f,
+  wf_stmts 0 l = true -> (ndecls l <= List.length names)%nat -> (max_height l <= f)%nat ->
+  fst (Sem.run (S f) (embed_stmts names 0 l)) = lift (run_stmts nil l ScalarFrag.VNil).
+Proof. exact sem_var_program. Qed.
+
+(* (3) expressions: inside ANY code object, at ANY position, under ANY stack with room for it; [globals_ok s rho] says
+   that global slot i holds variable i; k is the number of instructions executed *)
 Require Import RV.model.VM RV.proofs.VMScalarProofs.
 Theorem C01_back_vm_scalar :
-  forall tabs c below frames free defers is_main s e base pre post st,
+  forall tabs c below frames free defers is_main s rho, globals_ok s rho ->
+  forall e base pre post st,
+  wf (List.length rho) e = true ->
   code_instr c = (pre ++ fst (cexp base e) ++ post)%list ->
   (forall i k, nth_error (snd (cexp base e)) i = Some k -> nth (base + i) (code_consts c) (KInt 0) = k) ->
   (below + List.length st + need e <= MAXSTACK)%nat ->
   exists k, forall f,
     exec tabs (k + f) c (List.length pre) st below frames free defers is_main s =
-    match sev e with
+    match sev rho e with
     | inl v => exec tabs f c (List.length pre + List.length (fst (cexp base e))) (VMScalarProofs.inj v :: st)%list
                     below frames free defers is_main s
     | inr x => (RErr (cls x) s, defers)
     end.
 Proof. exact vm_scalar. Qed.
 
-(* Assembled: for every whole program that consists of one scalar expression whose evaluation fits the VM's 1024
-   operand slots, the compiler model accepts it, and running the compiled code on the VM model from the initial machine
-   state gives the value - or the error class - that the reference semantics assigns to the source.  These are the
-   very functions (compile_program, VM.run, Sem.run) that are extracted and compared with the real compiler and VM on
-   every run.  The bound is real: deeper operand nesting overflows the implementation's stack as well. *)
-Require Import RV.proofs.EndToEndScalar.
-Theorem C01_scalar_programs : forall e, (need e <= MAXSTACK)%nat ->
-  exists c tabs, compile_program (height e) nil (embed e :: nil) = inr (c, tabs) /\
-  forall ng bs, exists k, forall f fs, (height e <= fs)%nat ->
-    agree (fst (Sem.run fs (embed e :: nil))) (VM.run (k + S f) c tabs ng bs).
-Proof. exact scalar_programs_end_to_end. Qed.
+(* (4) Assembled.  [agree] relates an outcome of Sem with a result of the VM: the same scalar, or the same error class.
+   The hypotheses are the fragment's side conditions: variables are used after their declaration (wf_stmts), there are
+   enough distinct, non-empty names, every expression fits the VM's 1024 operand slots (the bound is real: deeper
+   operand nesting overflows the implementation's stack as well), and the VM has a global slot for every variable.
+   compile_program, VM.run and Sem.run are the very functions that are extracted and compared with the real compiler
+   and VM on every run. *)
+Require Import RV.proofs.EndToEndVars.
+Theorem C01_var_programs : forall names, NoDup names -> Forall (fun nm => nm <> nil) names -> forall l,
+  l <> nil -> wf_stmts 0 l = true -> (ndecls l <= List.length names)%nat -> (max_need l <= MAXSTACK)%nat ->
+  exists c tabs, compile_program (S (max_height l)) nil (embed_stmts names 0 l) = inr (c, tabs) /\
+  forall ng, (ndecls l <= ng)%nat -> exists n, forall f fs, (max_height l < fs)%nat ->
+    agree (fst (Sem.run fs (embed_stmts names 0 l))) (VM.run (n + S f) c tabs ng nil).
+Proof. exact var_programs_end_to_end. Qed.
 
-(* Non-vacuity: (7 - 10) * 2 < 0 ? 1 / 0 : 5 compiles, and both sides stop with the division error *)
-Example C01_scalar_program_example :
-  let e := STern (SBin CLt (SBin BMul (SBin BSub (SInt 7) (SInt 10)) (SInt 2)) (SInt 0)) (SBin BDiv (SInt 1) (SInt 0)) (SInt 5) in
-  (need e <= MAXSTACK)%nat /\
-  match compile_program 10 nil (embed e :: nil) with
-  | inr (c, tabs) => match VM.run 100 c tabs 0 nil with RErr XDiv0 _ => True | _ => False end
+(* Non-vacuity: a := 7; b := a * 2; a = b - 15; a < 0 ? 1 / a : b    (= -1 ... integer division: 1 / -1 = -1) *)
+Definition ex_names : list (list N) := ((97 :: nil) :: (98 :: nil) :: nil)%N.
+Definition ex_prog : list stmt :=
+  (SDecl (SInt 7) :: SDecl (SBin BMul (SVar 0) (SInt 2)) :: SSet 0 (SBin BSub (SVar 1) (SInt 15)) ::
+   SExpr (STern (SBin CLt (SVar 0) (SInt 0)) (SBin BDiv (SInt 1) (SVar 0)) (SVar 1)) :: nil)%list.
+Example C01_var_program_example :
+  wf_stmts 0 ex_prog = true /\ ndecls ex_prog = 2%nat /\ run_stmts nil ex_prog ScalarFrag.VNil = inl (ScalarFrag.VInt (-1)) /\
+  match compile_program 10 nil (embed_stmts ex_names 0 ex_prog) with
+  | inr (c, tabs) => match VM.run 200 c tabs 2 nil with RVal (VM.VInt z) _ => z = (-1)%Z | _ => False end
   | inl _ => False
-  end /\ fst (Sem.run 10 (embed e :: nil)) = Sem.OErr Sem.XDiv0.
-Proof. cbv zeta. split; [apply PeanoNat.Nat.leb_le; vm_compute; reflexivity|]. split; [vm_compute; exact Logic.I|vm_compute; reflexivity]. Qed.
+  end /\ fst (Sem.run 10 (embed_stmts ex_names 0 ex_prog)) = Sem.OVal (Sem.VInt (-1)).
+Proof.
+  split; [vm_compute; reflexivity|]. split; [vm_compute; reflexivity|]. split; [vm_compute; reflexivity|].
+  split; vm_compute; reflexivity.
+Qed.
